@@ -165,6 +165,48 @@ def restart(ck, mod, tier, parsed, found):
                 q.append((list(it.pc), [want != z3.BoolVal(i in proc)]))
         agg(ck, 'restart pattern %s: a job is (re)started iff it is AVAILABLE or named by the pattern' % label, q, TO, found, 'restart')
 
+def merge_payload(ck, mod, tier, parsed, found):
+    """results reported by another process (status, output, error) are all taken over by the merge"""
+    TO = 60
+    eo, ee, est = z3.Ints('eo ee est')
+    trace = []
+    def body(it):
+        it.assume(z3.And(eo >= 0, eo <= 1, ee >= 0, ee <= 1, est >= 0, est <= 3))
+        po = it.call('@h_po_setup', [1, 0, 0])
+        internal = mk_jobs(it, [(ASSIGNED, 1, OTHER)]); it.call('@h_po_set_jobs', [po, internal])
+        filev = it.call('@h_jobs_new', []); it.call('@h_jobs_add_full', [filev, 0, est, 1, OTHER, eo, ee]); it.call('@h_disk_set', [filev])
+        it.call('@h_po_sync', [po])
+        return get_jobs(it, it.call('@h_po_jobs', [po]))[0], get_jobs(it, it.call('@h_disk_file', []))[0]
+    res, st = explore(mod, po_models(trace), body, parsed=parsed, max_paths=200)
+    q = []
+    for it, (fin, fil) in res:
+        goal = z3.And(I(fin[1]) == est, I(fin[5]) == eo, I(fin[6]) == ee, I(fil[1]) == est, I(fil[5]) == eo, I(fil[6]) == ee)
+        q.append((list(it.pc), [z3.Not(goal)]))
+    agg(ck, 'merge: status, output and error text reported by another process are all taken over and written back (every combination of output/error present)', q, TO, found, 'merge payload')
+
+def two_syncs(ck, mod, tier, parsed, found):
+    """two successive synchronisations of the same process (cache 1): no job enters its cache twice, also with a restart pattern naming ASSIGNED jobs"""
+    TO = 60; NJ = 2
+    ist = [z3.Int('ist%d' % i) for i in range(NJ)]
+    for rmode, label in ((0, 'no restart pattern'), (1, 'restart stat(ASSIGNED)'), (2, 'restart stat(FAILED)')):
+        trace = []
+        def body(it):
+            for x in ist: it.assume(z3.And(x >= 0, x <= 3))
+            po = it.call('@h_po_setup', [1, 5, 1 if rmode else 0])
+            if rmode: it.call('@h_po_add_restart', [po, 1, 1 if rmode == 1 else 2])
+            internal = mk_jobs(it, [(ist[i], 0, 0) for i in range(NJ)]); it.call('@h_po_set_jobs', [po, internal])
+            filev = mk_jobs(it, [(ist[i], 0, 0) for i in range(NJ)]); it.call('@h_disk_set', [filev])
+            outs = []
+            for k in range(2):
+                it.call('@h_po_sync', [po])
+                n = sgn64(it.call('@h_po_ntoproc', [po])); outs.append([sgn64(it.call('@h_po_toproc', [po, j])) for j in range(n)])
+            return outs
+        res, st = explore(mod, po_models(trace), body, parsed=parsed, max_paths=400)
+        bad = [(it, o) for it, o in res if set(o[0]) & set(o[1])]
+        mdl = smt.check(list(bad[0][0].pc), 20)[2] if bad else None
+        ck.obligation('two successive synchronisations of one process, cache 1, %s: no job is handed to its workers twice (%d paths)' % (label, len(res)), 'sat' if bad else 'unsat', 0.0, True, {'model': mdl, 'handed_out': bad[0][1]} if bad else None)
+        if bad: found.append(('double hand-out', 'with %s a job enters the cache of the same process in two successive synchronisations: %s (statuses %s)' % (label, bad[0][1], mdl), mdl))
+
 def merge_rule(ck, mod, tier, parsed, found):
     """J1: UPDATE_JOBS throws on size/id mismatch (concrete), merge rule is covered inside the sync step"""
     def body(it):
@@ -218,6 +260,8 @@ def check_c10(ck, tier, replay=None):
     parsed = {}; found = []
     merge_rule(ck, mod, tier, parsed, found)
     sync_step(ck, mod, tier, parsed, found)
+    merge_payload(ck, mod, tier, parsed, found)
+    two_syncs(ck, mod, tier, parsed, found)
     two_process(ck, mod, tier, parsed, found)
     restart(ck, mod, tier, parsed, found)
     try: thread_mutex(ck, mod, tier, parsed, found)
